@@ -170,3 +170,45 @@ func (e errC09) Error() string { return string(e) }
 func VC09Pairs() {
 	vC09Program(vrt.Choice("program", vC09Programs), vrt.Choice("warm", 2) == 1)
 }
+
+func vPar3(a, b, c func()) {
+	var wg sync.WaitGroup
+	wg.Add(3)
+	go func() { defer wg.Done(); a() }()
+	go func() { defer wg.Done(); b() }()
+	go func() { defer wg.Done(); c() }()
+	wg.Wait()
+}
+
+//verif: prop=C09 tier=thorough bounds="three goroutines, one call each, on 6 programs (fresh WithLazy logger; log + With + Named; sampler on one key; JSON IO core over Lock with Sync; BufferedWriteSyncer write/sync/stop; recovered Panic + Info + Check/Write); at most 3 preemptions"
+func VC09Triples() {
+	obsCore, _ := observer.New(zapcore.DebugLevel)
+	base := New(obsCore)
+	switch vrt.Choice("program", 6) {
+	case 0:
+		l := base.WithLazy(Int("lazy", 1))
+		vPar3(func() { l.Info("a") }, func() { l.Info("b") }, func() { l.With(Int("c", 1)).Info("c") })
+	case 1:
+		l := base.With(Int("ctx", 1))
+		vPar3(func() { l.Info("a") }, func() { l.With(Int("c", 2)).Info("b") }, func() { l.Named("n").Info("c") })
+	case 2:
+		s := zapcore.NewSamplerWithOptions(obsCore, time.Second, 1, 2)
+		l := New(s, WithClock(vFixedClock{}))
+		vPar3(func() { l.Info("m") }, func() { l.Info("m") }, func() { l.Info("m") })
+	case 3:
+		sink := &vSafeSink{}
+		l := New(zapcore.NewCore(zapcore.NewJSONEncoder(zapcore.EncoderConfig{MessageKey: "m"}), zapcore.Lock(zapcore.AddSync(sink)), zapcore.DebugLevel))
+		vPar3(func() { l.Info("a", Int("k", 1)) }, func() { l.Info("b") }, func() { _ = l.Sync() })
+	case 4:
+		sink := &vSafeSink{}
+		bws := &zapcore.BufferedWriteSyncer{WS: zapcore.AddSync(sink), Size: 64, FlushInterval: time.Hour, Clock: vNoTickClock{}}
+		vPar3(func() { _, _ = bws.Write([]byte("a\n")) }, func() { _ = bws.Sync() }, func() { _ = bws.Stop() })
+	case 5:
+		vPar3(func() { vRecoverPanic(func() { base.Panic("boom") }) }, func() { base.Info("b") }, func() {
+			if ce := base.Check(zapcore.InfoLevel, "c"); ce != nil {
+				ce.Write(Int("k", 1))
+			}
+		})
+	}
+	vrt.Cover("done")
+}
